@@ -13,6 +13,7 @@ import AriadneModel.Proofs.ResultLeaf
 import AriadneModel.Model.Triggers01
 import AriadneModel.Model.Marks
 import AriadneModel.Spec.Validate
+import AriadneModel.Proofs.C01Plain
 
 set_option linter.unusedVariables false
 
@@ -197,5 +198,29 @@ def wOkResp : J := .obj [("node", .obj [("__typename", .str "User"), ("id", .str
 example : ValidInput wOk ∧ Supported_01 wOk ∧ claimB wOk 0 wOkResp = true
     ∧ Exec.respOK w2Schema [] execFuel "Query" (Marks.applySels (marksAfter (run wOk).ops) ((wOk.ops.map (·.sel)).flatten)) wOkResp = true := by
   decide +kernel
+
+
+/-! ### The plain-selection tier, proved (Proofs/C01Plain*.lean)
+
+For every selection set made of fields only (aliases, `@skip/@include`, any nesting depth, every wrapper
+nesting, leaf- or object-typed fields), evaluated on an object type, under the decidable well-formedness
+predicate `PlainOK` (distinct response keys / Python names / class names, fields exist, no `@mixin`):
+the generator model succeeds for all sufficiently large fuel, and EVERY answer a conformant executor can
+give (`Exec.respOK`, objects without repeated keys) is accepted by the root class and dumped back
+(order-insensitively).  No bound on depth, width, list lengths. -/
+
+open Ariadne.C01Plain in
+theorem object_selection_roundtrip (env : ResultTypes.Env) (cn tn : String) (sid : Nat) (sel : List Selection) (st : St)
+    (h : PlainOK env cn tn sid sel st = true) :
+    ∃ classes : List ClassDecl,
+      (∀ fuel, gfuel sel ≤ fuel →
+        ∃ st', parseTypeDefinition env fuel cn tn sid sel false [] [] st = .ok (classes, st')) ∧
+      classes.head?.map (·.name) = some cn ∧
+      (∀ (penv : Pyd.Env), PenvOK env penv classes →
+        ∀ (efuel : Nat) (j : J), Exec.respOK env.schema [] efuel tn sel j = true → nodupKeys j = true →
+        ∀ vfuel, vneed env tn sel + 1 ≤ vfuel →
+          ∃ v, Pyd.validate penv vfuel (.cls cn) j = .ok v ∧ J.eqv (Pyd.dump v) j = true) :=
+  C01_plain env cn tn sid sel st h
+
 
 end Ariadne.C01
